@@ -13,6 +13,8 @@ import Kvass.Pins.Sidecar
 import Kvass.Props.C03
 import Kvass.Proofs.LoopRepair
 import Kvass.Proofs.LoopStep
+import Kvass.Proofs.LoopRecover
+import Kvass.Proofs.LoopSettle
 
 namespace Kvass.Props.C06
 open Kvass Kvass.Coord Kvass.Spec
@@ -244,13 +246,57 @@ theorem C06_step_keep (swr : Swr) (env : Loop.Env) (w : Loop.World) (sc : Sched)
       (Loop.step swr env w (.cycle sc [] false)).shards[d]? = some shd ∧ (Loop.statusOf shd).has h = true :=
   Loop.step_keep swr env w sc hrep hne hnc hnd hidle hmax hrun hr ha
 
+/-- **C06, recovery in one cycle** for the residue of lost hand-overs (update to the destination
+    lost, destination scaled away or restarted empty): from a closed-loop state in which copies are
+    marked in transfer with no partner — and which is otherwise settled: no duplicates, no overload,
+    everything discovered is held, scale-down off — ONE fault-free `Loop.step` leads to a state in
+    which the StatefulSet has the same size and every running sidecar reports the same targets as
+    before, all in normal state.  For every schedule; any number of such copies on any shards. -/
+theorem C06_recovers_in_one_cycle (swr : Swr) (env : Loop.Env) (w : Loop.World) (sc : Sched)
+    (r : Loop.Residue swr env w) :
+    (Loop.step swr env w (.cycle sc [] false)).replicas = w.replicas ∧
+    (Loop.step swr env w (.cycle sc [] false)).active = w.active ∧
+    ∀ (i : Nat) (sh : Loop.Shard), w.running[i]? = some sh →
+      ∃ sh', (Loop.step swr env w (.cycle sc [] false)).shards[i]? = some sh' ∧
+        (∀ h, h ∈ (Loop.statusOf sh').keys ↔ h ∈ (Loop.statusOf sh).keys) ∧
+        (∀ h v, (Loop.statusOf sh').get h = some v → v.state = .normal) :=
+  Loop.loop_recovers swr env w sc r
+
+/-- **pending moves complete, lost ones are undone — in one closed-loop step.**  From a settled state
+    whose only irregularities are moves (a target reported by two running sidecars is reported once in
+    transfer and once in normal state, three scrapes each; a target in transfer with no partner has
+    three scrapes), one fault-free `Loop.step` leaves the StatefulSet at its size, and every running
+    sidecar then reports exactly its normal-state targets and those in-transfer targets that no other
+    sidecar reported — all in normal state: every hand-over is finished, nothing is pending, nothing
+    is scraped twice because of a move, nothing is lost.  For every schedule. -/
+theorem C06_settles_in_one_cycle (swr : Swr) (env : Loop.Env) (w : Loop.World) (sc : Sched)
+    (r : Loop.Settled swr env w) :
+    (Loop.step swr env w (.cycle sc [] false)).replicas = w.replicas ∧
+    (Loop.step swr env w (.cycle sc [] false)).active = w.active ∧
+    ∀ (i : Nat) (sh : Loop.Shard), w.running[i]? = some sh →
+      ∃ sh', (Loop.step swr env w (.cycle sc [] false)).shards[i]? = some sh' ∧
+        (∀ h, h ∈ (Loop.statusOf sh').keys ↔
+          ∃ v, (Loop.statusOf sh).get h = some v ∧
+            ¬ (v.state = .inTransfer ∧ ∃ (k : Nat) (shk : Loop.Shard), k ≠ i ∧ w.running[k]? = some shk ∧
+                (Loop.statusOf shk).has h = true)) ∧
+        (∀ h v, (Loop.statusOf sh').get h = some v → v.state = .normal) :=
+  Loop.loop_settles swr env w sc r
+
+/-- a cycle in which nothing has to move is exactly `gcTargets` (what the recovery theorem rests on) -/
+theorem C06_calm_cycle_is_gc (swr : Swr) (sc : Sched) (inp : Input) (q : Calm swr inp) :
+    (cycle swr sc inp).crashed = false ∧
+    (cycle swr sc inp).scales = [(inp.probes.length : Int)] ∧
+    (cycle swr sc inp).final = gc inp.opt inp.active (infos0 inp) ∧
+    stopsEarly inp = false :=
+  calm_cycle swr sc inp q
+
 /-- non-vacuity: a world in which shard 0 reports target 1 in transfer (5 scrapes), alone -/
 def exWorld : Loop.World :=
   { shards := [⟨{ targets := [⟨1, 10, 10, .inTransfer, 1⟩], status := [(1, { health := .good, series := 10, total := 10, state := .inTransfer, times := 5 })],
                    idleAt := none }, 7⟩,
                ⟨{ targets := [], status := [], idleAt := some 0 }, 3⟩],
     replicas := 2, active := [1], explore := [] }
-def exEnv : Loop.Env := { opt := ⟨0, 1000, 5, 1, false, false⟩, maxIdle := 3 }
+def exEnv : Loop.Env := { opt := ⟨0, 1000, 5, 1, false, true⟩, maxIdle := 3 }
 
 example : stopsEarly (Loop.inputOf exEnv exWorld [] false) = false ∧
     (cycle (fun x r => x * r / 10) {} (Loop.inputOf exEnv exWorld [] false)).crashed = false ∧
@@ -265,5 +311,118 @@ example : ((Loop.step (fun x r => x * r / 10) exEnv exWorld (.cycle {} [] false)
   intro sh hsh
   simp [exWorld, Loop.World.running] at hsh
   rcases hsh with rfl | rfl <;> simp [Sidecar.IdleInv]
+
+/-- the example world meets the hypotheses of the recovery theorem -/
+example : Loop.Residue (fun x r => x * r / 10) exEnv exWorld := by
+  have hrun : exWorld.running = exWorld.shards := by rfl
+  have hinf : infos0 (Loop.inputOf exEnv exWorld [] false) =
+      [⟨true, Loop.rtOf exEnv exWorld.shards[0]!, Loop.statusOf exWorld.shards[0]!⟩,
+       ⟨true, Loop.rtOf exEnv exWorld.shards[1]!, []⟩] := by
+    rw [Loop.infos0_inputOf, hrun]; rfl
+  refine ⟨by decide, ?_, ?_, ?_, ?_, Or.inl rfl, ?_, by decide, by decide, rfl⟩
+  · intro sh hsh
+    rw [hrun] at hsh
+    simp only [exWorld, List.mem_cons, List.not_mem_nil, or_false] at hsh
+    rcases hsh with rfl | rfl <;> decide
+  · rw [hinf]
+    intro i j si sj h hi hj hij hne
+    match i, j with
+    | 0, 0 => exact absurd rfl hij
+    | 0, 1 => simp at hj; subst hj; rfl
+    | 1, _ => simp at hi; subst hi; simp [AL.get] at hne
+    | 0, j + 2 => simp at hj
+    | i + 2, _ => simp at hi
+  · intro sh hsh h v hv
+    rw [hrun] at hsh
+    simp only [exWorld, List.mem_cons, List.not_mem_nil, or_false] at hsh
+    rcases hsh with rfl | rfl
+    · simp only [Loop.statusOf, List.map_cons, List.map_nil, AL.get] at hv
+      split at hv
+      · rename_i e; subst e; decide
+      · cases hv
+    · simp [Loop.statusOf, AL.get] at hv
+  · intro sh hsh h v hv hst
+    rw [hrun] at hsh
+    simp only [exWorld, List.mem_cons, List.not_mem_nil, or_false] at hsh
+    rcases hsh with rfl | rfl
+    · simp only [Loop.statusOf, List.map_cons, List.map_nil, AL.get] at hv
+      split at hv
+      · cases hv; decide
+      · cases hv
+    · simp [Loop.statusOf, AL.get] at hv
+  · intro h hh
+    simp only [exWorld, List.mem_cons, List.not_mem_nil, or_false] at hh
+    subst hh
+    left
+    rw [hinf]
+    decide
+
+/-- a pending hand-over: shard 0 holds target 1 in transfer (5 scrapes), shard 1 in normal state (4) -/
+def exMove : Loop.World :=
+  { shards := [⟨{ targets := [⟨1, 10, 10, .inTransfer, 1⟩], status := [(1, { health := .good, series := 10, total := 10, state := .inTransfer, times := 5 })],
+                   idleAt := none }, 7⟩,
+               ⟨{ targets := [⟨1, 10, 10, .normal, 1⟩], status := [(1, { health := .good, series := 10, total := 10, state := .normal, times := 4 })],
+                   idleAt := none }, 6⟩],
+    replicas := 2, active := [1], explore := [] }
+
+/-- … is completed by one step: the source no longer reports the target, the destination does -/
+example : ((Loop.step (fun x r => x * r / 10) exEnv exMove (.cycle {} [] false)).shards.map
+      fun sh => (Loop.statusOf sh).map fun p => (p.1, p.2.state)) = [[], [(1, .normal)]] := by
+  decide
+
+/-- the pending hand-over meets the hypotheses of `C06_settles_in_one_cycle` -/
+example : Loop.Settled (fun x r => x * r / 10) exEnv exMove := by
+  have hrun : exMove.running = exMove.shards := by rfl
+  have hinf : infos0 (Loop.inputOf exEnv exMove [] false) =
+      [⟨true, Loop.rtOf exEnv exMove.shards[0]!, Loop.statusOf exMove.shards[0]!⟩,
+       ⟨true, Loop.rtOf exEnv exMove.shards[1]!, Loop.statusOf exMove.shards[1]!⟩] := by
+    rw [Loop.infos0_inputOf, hrun]; rfl
+  have hget : ∀ (sh : Loop.Shard), sh ∈ exMove.shards → ∀ h v, (Loop.statusOf sh).get h = some v →
+      h = 1 ∧ 3 ≤ v.times := by
+    intro sh hsh h v hv
+    simp only [exMove, List.mem_cons, List.not_mem_nil, or_false] at hsh
+    rcases hsh with rfl | rfl
+    all_goals
+      simp only [Loop.statusOf, List.map_cons, List.map_nil, AL.get] at hv
+      split at hv
+      · rename_i e; cases hv; exact ⟨e.symm, by decide⟩
+      · cases hv
+  refine ⟨by decide, ?_, ?_, ?_, ?_, Or.inl rfl, ?_, by decide, by decide, rfl⟩
+  · intro sh hsh
+    rw [hrun] at hsh
+    simp only [exMove, List.mem_cons, List.not_mem_nil, or_false] at hsh
+    rcases hsh with rfl | rfl <;> decide
+  · intro i j shi shj h vi vj hi hj hij hgi hgj
+    rw [hrun] at hi hj
+    match i, j with
+    | 0, 0 => exact absurd rfl hij
+    | 1, 1 => exact absurd rfl hij
+    | 0, 1 =>
+      simp [exMove] at hi hj; subst hi; subst hj
+      have h1 := (hget _ (by simp [exMove]) h vi hgi).1
+      subst h1
+      simp [Loop.statusOf, AL.get] at hgi hgj
+      subst hgi; subst hgj; left; decide
+    | 1, 0 =>
+      simp [exMove] at hi hj; subst hi; subst hj
+      have h1 := (hget _ (by simp [exMove]) h vi hgi).1
+      subst h1
+      simp [Loop.statusOf, AL.get] at hgi hgj
+      subst hgi; subst hgj; right; decide
+    | i + 2, _ => simp [exMove] at hi
+    | 0, j + 2 => simp [exMove] at hj
+    | 1, j + 2 => simp [exMove] at hj
+  · intro sh hsh h v hv
+    rw [hrun] at hsh
+    rw [(hget sh hsh h v hv).1]; decide
+  · intro sh hsh h v hv _
+    rw [hrun] at hsh
+    exact (hget sh hsh h v hv).2
+  · intro h hh
+    simp only [exMove, List.mem_cons, List.not_mem_nil, or_false] at hh
+    subst hh
+    left
+    rw [hinf]
+    decide
 
 end Kvass.Props.C06
